@@ -57,6 +57,12 @@ func crossDiff(base string, others ...string) func(v *Verdict, runs []*Run, resu
 			for _, br := range brs {
 				if br != nil && br.Config != nil {
 					cfgSeen[name] = br.Config["native"] + "/optdec=" + br.Config["optdec"] + "/fastmap=" + br.Config["fastmap"] + "/vm=" + br.Config["vm"]
+					// overlays of the runtime-cooperation check, as the worker saw them
+					for _, k := range []string{"GOGC", "GODEBUG", "SONIC_SYNC_GC", "VERIF_C10", "GOMAXPROCS"} {
+						if x := br.Config[k]; x != "" {
+							cfgSeen[name] += "/" + k + "=" + x
+						}
+					}
 				}
 			}
 		}
@@ -376,6 +382,129 @@ func init() {
 				{Name: "f32all", Flavor: "plain", Mode: "f32all", NBatch: n(16, 64), TimeoutS: n(600, 3000)},
 				{Name: "f32all-sse", Flavor: "plain", Mode: "f32all", NBatch: n(4, 64), Env: []string{"SONIC_MODE=noavx2"}, TimeoutS: n(600, 3000)},
 				{Name: "f64fmt", Flavor: "plain", Mode: "f64fmt", NBatch: n(8, 32), TimeoutS: n(600, 3000)},
+			}
+		},
+	}
+}
+
+// historyDiff (C09): in every run, batch 0 is the baseline history; every other
+// batch (another history in another fresh process) must give the same digest for
+// every probe.
+func historyDiff(v *Verdict, runs []*Run, results map[string][]*BatchResult) {
+	compared, differed, histories := int64(0), int64(0), 0
+	var descs []string
+	for _, r := range runs {
+		brs := results[r.Name]
+		if len(brs) == 0 || brs[0] == nil || !brs[0].Completed || len(brs[0].Digests) == 0 {
+			v.Inconcl = append(v.Inconcl, fmt.Sprintf("run %s: the baseline history did not complete: nothing to compare with", r.Name))
+			continue
+		}
+		base := brs[0].Digests
+		for b := 1; b < len(brs); b++ {
+			if brs[b] == nil {
+				continue
+			}
+			hist := ""
+			for _, n := range brs[b].Notes {
+				if n["msg"] == "history" {
+					hist = fmt.Sprint(n["detail"])
+				}
+			}
+			if len(brs[b].Digests) > 0 {
+				histories++
+				if len(descs) < 40 {
+					descs = append(descs, fmt.Sprintf("%s/%d: %s", r.Name, b, head(hist, 200)))
+				}
+			}
+			perBatch := 0
+			for i, d := range brs[b].Digests {
+				bd, ok := base[i]
+				if !ok {
+					continue
+				}
+				compared++
+				if strings.SplitN(d, " ", 2)[0] == strings.SplitN(bd, " ", 2)[0] {
+					continue
+				}
+				differed++
+				perBatch++
+				if perBatch > 5 {
+					continue
+				}
+				v.Violations = append(v.Violations, Violation{Run: r.Name, Batch: b, Case: i, API: "probe", AlsoBatch1: 1,
+					Msg:    "the result of a call depends on what the process did before",
+					Detail: map[string]string{"baseline_history": bd, "this_history": d, "history": hist}})
+				v.VCount++
+			}
+		}
+	}
+	if v.Extra == nil {
+		v.Extra = map[string]interface{}{}
+	}
+	v.Extra["probe_results_compared_with_baseline"] = compared
+	v.Extra["probe_results_differing"] = differed
+	v.Extra["histories_compared"] = histories
+	v.Extra["histories"] = descs
+	if compared == 0 {
+		v.Inconcl = append(v.Inconcl, "no probe results were compared")
+	}
+}
+
+func init() {
+	plans["C09"] = &Plan{
+		Level: "exploration",
+		Rule: "every worker process is one history. All processes of a run execute the same probe list (from the seed only): ConfigStd.Marshal (value, pointer, inside []interface{}, inside map[string]interface{}) and Unmarshal (ConfigStd/ConfigDefault, fresh or pre-populated destination) over ~45 history-sensitive types (pairs of distinct types that print identically: same package name in two packages and function-local types; recursive and mutually recursive types; named structs nested 6 deep = beyond the inline depth; >50 fields; embedding; non-empty interfaces; pointer-receiver marshalers at always-inlined depths; every omitempty kind) plus seeded random types/values/documents of the C01/C03 generators. " +
+			"Batch 0 = baseline (no prelude, list order; its agreement with encoding/json is counted). The other histories: shuffled/reversed order, pointer-before-value and value-before-pointer, decode-before-encode and reverse, PretouchMany of all probe types (one module) with random MaxInlineDepth in {1,2,3,4,10} and RecursiveDepth in {0,1,2,5}, PretouchMany in random chunks, Pretouch one by one over a random subset with random options, pointer types pretouched first, 2100 throw-away types through both caches (rehash), 4400 through the encoder cache and 4400 through the decoder cache (two rehashes), probes interleaved with throw-away types and Pretouch of later probe types, everything in one module at inline depth 1. Oracle: per-probe digest equal to the baseline's (offline, across processes); in every process each probe is executed a second time at the end (after a collection, other order) and must repeat its first result. WithCompileEncOnlyOmitNull is not used (documented to change the encoding). distinct = hash(probe, result) and hash(history)",
+		Assumptions: []string{"equality of digests (FNV-1a 64 of the output bytes / canonical dump of the destination) is taken as equality of results", "probes use ConfigStd.Marshal (sorted map keys), so that results are defined up to bytes", "only the histories actually produced are decided"},
+		MinEvals:    4000, MinEvalsThorough: 100000,
+		Runs: func(string) []*Run {
+			return []*Run{
+				{Name: "jit", Flavor: "plain", NBatch: n(16, 61), TimeoutS: n(900, 3000), MaxAttempts: 2},
+				{Name: "vm-optdec", Flavor: "plain", NBatch: n(6, 31), Env: []string{"SONIC_ENCODER_USE_VM=1", "SONIC_USE_OPTDEC=1"}, TimeoutS: n(900, 3000), MaxAttempts: 2},
+				{Name: "sse", Flavor: "plain", NBatch: n(3, 16), Env: []string{"SONIC_MODE=noavx2"}, TimeoutS: n(900, 3000), MaxAttempts: 2},
+			}
+		},
+		Post: historyDiff,
+	}
+}
+
+func init() {
+	c10a := crossDiff("calm", "gc", "gc-sse", "stack", "gc-2procs")
+	c10b := crossDiff("calm-dec", "syncgc")
+	plans["C10"] = &Plan{
+		Level: "exploration",
+		Rule: "the same seeded case list is executed in a calm process and in stressed processes and the per-case digests (encoded text; dump of what it decodes back to; dump of decoded destinations) must be equal. Cases: ConfigStd.Marshal + Unmarshal of the text, and Unmarshal of documents (fresh and pre-populated destinations), over 16 callback types (struct/string/pointer-carrying map keys through TextMarshaler/TextUnmarshaler, json.Marshaler/Unmarshaler with value and pointer receivers, TextMarshaler values, omitzero fields, a struct mixing them with every pointer-carrying field shape) and over the random types of the C01/C03 generators (every opcode family, out-of-line recursion). Every call runs on a fresh goroutine after 0-110 padding frames (entry into generated code at varying distance from the end of a small stack). In stressed processes every callback invoked FROM generated code performs a seeded action: runtime.GC; GC + 3000 allocations of 11 size classes + GC (recycles freed slots); 3000-frame recursion (the stack is copied with generated frames on it); debug.Stack/runtime.Callers/runtime.Stack(all); yield + allocations; hand-off (another goroutine collects twice while this one is parked = stack scan/shrink of a parked goroutine with generated frames); a nested sonic Marshal+Unmarshal (re-entrancy); GC + recursion + churn. " +
+			"Process overlays: GOGC=1 + GODEBUG=gccheckmark=1,clobberfree=1 (the runtime re-marks with the world stopped and dies on an object the concurrent mark missed = missing write barrier; freed objects are overwritten) + a goroutine forcing collections; 'stack': SIGPROF at 4000 Hz + a goroutine dumping all goroutine stacks every 300us + forced collections; SONIC_SYNC_GC=1 in decode-only processes (collection between decoder opcodes). Retention monitor: the last 40 decoded destinations/outputs are re-read (inputs already dropped by the harness) and every encoded value is encoded again ~40 cases later; any change is a violation. Worker death (any fatal error of the runtime's self-checks, SIGSEGV) is a violation with the running case recorded. distinct = hash(case description, value/document)",
+		Assumptions: []string{"the Go runtime's debug checks (gccheckmark, clobberfree, traceback/stack-copy consistency throws) report the inconsistencies they are designed for; a fault confined to an unreached GC point is not observed", "digest equality (FNV-1a 64) is taken as equality", "only the executions (collection/stack-move points) actually produced are decided"},
+		MinEvals:    3000, MinEvalsThorough: 100000,
+		Runs: func(string) []*Run {
+			gcEnv := []string{"VERIF_C10=gc", "GOGC=1", "GODEBUG=gccheckmark=1,clobberfree=1"}
+			nb := n(4, 16)
+			return []*Run{
+				{Name: "calm", Flavor: "plain", NBatch: nb, TimeoutS: n(900, 6000)},
+				{Name: "gc", Flavor: "plain", NBatch: nb, Env: gcEnv, TimeoutS: n(900, 6000)},
+				{Name: "gc-sse", Flavor: "plain", NBatch: n(1, 4), Env: append([]string{"SONIC_MODE=noavx2"}, gcEnv...), TimeoutS: n(900, 6000)},
+				{Name: "gc-2procs", Flavor: "plain", NBatch: n(1, 8), Env: append([]string{"GOMAXPROCS=2"}, gcEnv...), TimeoutS: n(900, 6000)},
+				{Name: "stack", Flavor: "plain", NBatch: nb, Env: []string{"VERIF_C10=stack", "GOGC=5"}, TimeoutS: n(900, 6000)},
+				{Name: "calm-dec", Flavor: "plain", Mode: "dec", NBatch: n(2, 8), TimeoutS: n(900, 6000)},
+				{Name: "syncgc", Flavor: "plain", Mode: "dec", NBatch: n(2, 8), Env: []string{"SONIC_SYNC_GC=1", "GODEBUG=clobberfree=1"}, TimeoutS: n(900, 6000)},
+			}
+		},
+		Post: func(v *Verdict, runs []*Run, results map[string][]*BatchResult) {
+			c10a(v, runs, results)
+			x := v.Extra
+			v.Extra = nil
+			c10b(v, runs, results)
+			for k, a := range x {
+				if b, ok := v.Extra[k]; ok {
+					if ai, ok1 := a.(int64); ok1 {
+						if bi, ok2 := b.(int64); ok2 {
+							v.Extra[k] = ai + bi
+							continue
+						}
+					}
+				}
+				v.Extra[k] = a
 			}
 		},
 	}
